@@ -58,6 +58,9 @@ pub enum Op {
     WeakPair { m: u8, root: u8, kind: u8, keep: u8, sem: u8, chain: u8, fin: bool },
     /// allocate a finalizable object with a closure of `n` objects; `regs` registrations; root dropped iff `drop`
     FinObj { m: u8, root: u8, n: u8, regs: u8, drop: bool },
+    /// fill whole blocks densely with small objects (size 32 + extra) keeping every `keep`-th one alive
+    /// through holder objects chained from `root`: survivors and garbage share every line of a block
+    DenseFill { m: u8, root: u8, n: u8, extra: u8, keep: u8 },
     /// SATB pattern: move the referent of the first non-null field of obj(src) into a field of obj(dst),
     /// null the original field (both through the barrier) and drop every root naming the referent
     Hide { m: u8, src: u8, dst: u8 },
